@@ -7,6 +7,7 @@ import OmbottModel.Model.Upload
 import OmbottModel.Lemmas.Upload
 import OmbottModel.Lemmas.UploadCopy
 import OmbottModel.Lemmas.UploadWindow
+import OmbottModel.Lemmas.UploadIdem
 /-!
 C07 — Multipart forms and uploads round-trip exactly.
 Property theorems only; helper lemmas live in `Lemmas/Forms*.lean`.
@@ -359,6 +360,31 @@ theorem filename_safe (nf : Char → List Char) (raw : RawName) (f : Str) (h : s
     · intro d hd
       exact join_direct_child d _ hd hne hslash
 
+/-- **`filename_idempotent`.**  Sanitising a sanitised name returns it: for every raw name and every normaliser
+that fixes ASCII (as NFKD does; `nfkdTable_ascii_id` for the probed table), `FileUpload(…, filename).filename ==
+filename` — PROVIDED the sanitised name does not end with `.` or `-`, which by `filename_safe` can only happen
+when the name was cut at 255 characters (then a second pass strips the trailing dot: witness below). -/
+theorem filename_idempotent (nf : Char → List Char) (hnf : ∀ c : Char, c.toNat < 128 → nf c = [c])
+    (raw : RawName) (f : Str) (h : sanitize nf raw = some f)
+    (hlast : ∀ c, f.getLast? = some c → isDotDash c = false) :
+    sanitize nf (.str f) = some f := by
+  obtain ⟨hne, hlen, hsafe, _, hhd, _, _, _, _⟩ := filename_safe nf raw f h
+  have hdd : NoDD f := by
+    unfold sanitize at h
+    cases hr : rawText raw with
+    | none => rw [hr] at h; simp at h
+    | some s =>
+      rw [hr] at h
+      simp only [Option.map_some, Option.some.injEq, sanitizeStr] at h
+      have hq := truncOrEmpty_noDD (preTrunc nf s) (preTrunc_noDD nf s)
+      rw [h] at hq
+      exact hq
+  have hfix := preTrunc_clean_fix nf hnf f ⟨hsafe, hdd, hhd, hlast⟩
+  simp only [sanitize, rawText, Option.map_some, sanitizeStr, hfix]
+  rcases truncOrEmpty_cases f with ⟨h1, _⟩ | ⟨_, h2⟩
+  · exact absurd h1 hne
+  · rw [h2, List.take_of_length_le hlen]
+
 /-- `n` further reads of `upload.filename` -/
 def readsN (nf : Char → List Char) : Nat → FileUpload → FileUpload
   | 0, u => u
@@ -515,6 +541,14 @@ example : sanitize nfkdTable (.bytes [0x2e, 0x2e, 0x2f, 0xff, 0xc3]) = some cs!"
 dot (witness of the defect; the same on the real code) -/
 example : (sanitize (fun c => [c]) (.str (List.replicate 254 'a' ++ cs!".b"))).map (fun f => (f.length, f.getLast?)) =
     some (255, some '.') := by decide +kernel
+
+/-- `filename_idempotent`: the hypotheses on a concrete name; and the witness that the hypothesis on the last
+character is needed (the cut name of the previous example loses its dot in a second pass) -/
+example : sanitize nfkdTable (.str cs!" my  file--v2 .tar.gz. ") = some cs!"my-file-v2-.tar.gz" ∧
+    sanitize nfkdTable (.str cs!"my-file-v2-.tar.gz") = some cs!"my-file-v2-.tar.gz" := by decide +kernel
+
+example : (sanitize (fun c => [c]) (.str (List.replicate 254 'a' ++ cs!"."))).map List.length = some 254 := by
+  decide +kernel
 
 /-- `filename_cached_once`, `save_*`: an upload over the window `[2, 5)` of a 6-byte body -/
 def exUp : FileUpload := FileUpload.init ⟨2, 5, 2⟩ cs!"field" (.str cs!"../a b.txt") none
